@@ -4,20 +4,20 @@
  * RPDO are the reaction probes. */
 #include "node_common.h"
 
-enum { M_PREOP = 2, M_OP = 3, M_STOP = 4 };
+enum { M_INIT = 1, M_PREOP = 2, M_OP = 3, M_STOP = 4 };       /* M_INIT: cfg 7, the node is initialised but not started - time passes, nothing may be produced */
 static struct { uint8_t mode, producing, pending_rx, pend_val, p8, cnt2 /* SYNCs counted by the type-2 TPDO #3 */; uint32_t cobid /* stored 1005h */, cycle /* stored 1006h in ticks*1000 us */; uint16_t rem; } M;
 static uint32_t USPT;   /* microseconds per tick */
 static int INH;
 
 static const uint32_t ID_VALS[] = { 0x80u, 0x81u, 0x40000080u, 0x40000081u };
 static const uint32_t CY_TICKS_X2[] = { 0, 2, 4, 6, 1 };   /* period in half ticks: 0, 1, 2, 3 ticks and half a tick (below resolution) */
-enum { E_ID0 = 0, E_CY0 = 4, E_F80 = 9, E_F81, E_F7F, E_START, E_STOP, E_PREOP, E_RESET, E_TICK, E_GETERR, E_RPDO_A, E_RPDO_B, E_LOCAL, E_N };
+enum { E_ID0 = 0, E_CY0 = 4, E_F80 = 9, E_F81, E_F7F, E_START, E_STOP, E_PREOP, E_RESET, E_TICK, E_GETERR, E_RPDO_A, E_RPDO_B, E_LOCAL, E_NODESTART, E_N };
 
-static const char *cfg_name(int c) { static const char *const n[] = { "1kHz 1005h=80h 1006h=0", "1kHz 80h/2 ticks", "1kHz producer 40000080h/2 ticks", "1kHz producer 40000081h/3 ticks", "10kHz producer 40000080h/2 ticks", "1kHz producer bit set, 1006h=0 at start-up", "1kHz 80h/2 ticks, synchronous TPDOs with an inhibit time of 2 ms" }; return n[c]; }
+static const char *cfg_name(int c) { static const char *const n[] = { "1kHz 1005h=80h 1006h=0", "1kHz 80h/2 ticks", "1kHz producer 40000080h/2 ticks", "1kHz producer 40000081h/3 ticks", "10kHz producer 40000080h/2 ticks", "1kHz producer bit set, 1006h=0 at start-up", "1kHz 80h/2 ticks, synchronous TPDOs with an inhibit time of 2 ms", "1kHz producer 40000080h/2 ticks, node initialised but not started" }; return n[c]; }
 
 static int build(int cfg)
 {
-    static const uint32_t ID0[] = { 0x80u, 0x80u, 0x40000080u, 0x40000081u, 0x40000080u, 0x40000080u, 0x80u }; static const uint32_t CYT[] = { 0, 2, 2, 3, 2, 0, 2 };   /* cfg 5: the usual EDS default - producer bit set, period 0: production has to start with the first valid 1006h write */
+    static const uint32_t ID0[] = { 0x80u, 0x80u, 0x40000080u, 0x40000081u, 0x40000080u, 0x40000080u, 0x80u, 0x40000080u }; static const uint32_t CYT[] = { 0, 2, 2, 3, 2, 0, 2, 2 };   /* cfg 5: the usual EDS default - producer bit set, period 0: production has to start with the first valid 1006h write */
     nc_defaults();
     NC.freq = cfg == 4 ? 10000 : 1000; USPT = 1000000u / NC.freq;
     NC.sync = 1; NC.sync_id = ID0[cfg]; NC.sync_cycle = CYT[cfg] * USPT;
@@ -31,19 +31,20 @@ static int build(int cfg)
     /* cfg 6: the synchronous TPDOs own inhibit timers - one-shot timers that come and go next to the producer's cyclic one (timer ids are re-used); how the
      * inhibit time interacts with SYNC-driven transmission is not C16's business: at most one frame per TPDO and step is demanded there */
     INH = (cfg == 6);
+    NC.no_start = (cfg == 7);       /* cfg 7: producer configured, node initialised but not started: the producer's timer runs, the bus stays silent until CONodeStart */
     if (INH) { NC.tpdo[0].inhibit = 20; NC.tpdo[tl].inhibit = 20; }
     nc_build();
     (void)CONodeGetErr(&Node);
     memset(&M, 0, sizeof M);
-    M.mode = M_PREOP; M.cobid = ID0[cfg]; M.cycle = CYT[cfg] * 2; M.producing = (ID0[cfg] >> 30) & 1; M.rem = (uint16_t)CYT[cfg]; M.p8 = P8;
+    M.mode = (uint8_t)(cfg == 7 ? M_INIT : M_PREOP); M.cobid = ID0[cfg]; M.cycle = CYT[cfg] * 2; M.producing = (ID0[cfg] >> 30) & 1; M.rem = (uint16_t)CYT[cfg]; M.p8 = P8;
     W_REG(M);
-    return E_N;
+    return cfg == 7 ? E_N : E_N - 1;
 }
 
 static const char *ev_name(int e)
 {
     static char b[64];
-    static const char *const N[] = { "frame 80h", "frame 81h", "frame 7Fh", "NMT start", "NMT stop", "NMT pre-op", "NMT reset communication", "tick", "CONodeGetErr", "RPDO frame A", "RPDO frame B", "local write of the mapped object" };
+    static const char *const N[] = { "frame 80h", "frame 81h", "frame 7Fh", "NMT start", "NMT stop", "NMT pre-op", "NMT reset communication", "tick", "CONodeGetErr", "RPDO frame A", "RPDO frame B", "local write of the mapped object", "application: CONodeStart" };
     if (e < E_CY0) snprintf(b, sizeof b, "SDO 1005h=%08X", ID_VALS[e]);
     else if (e < E_F80) snprintf(b, sizeof b, "SDO 1006h=%u.%u tick(s)", CY_TICKS_X2[e - E_CY0] / 2, (CY_TICKS_X2[e - E_CY0] & 1) * 5);
     else snprintf(b, sizeof b, "%s", N[e - E_F80]);
@@ -55,6 +56,8 @@ static int resolvable(uint32_t half_ticks) { return half_ticks >= 2 && (half_tic
 static int step(int e)
 {
     int expect_sync = 0, expect_tpdo = 0, expect_tpdo3 = 0; uint8_t d[8] = { 0 }; uint32_t r, back;
+    if (M.mode == M_INIT && e != E_TICK && e != E_NODESTART && e != E_GETERR) return MC_SKIP;      /* no NMT, SDO or PDO service before the node is started */
+    if (e == E_NODESTART) { if (M.mode != M_INIT) return MC_SKIP; M.mode = M_PREOP; CONodeStart(&Node); }
     if (e < E_CY0) {                                           /* ---- write 1005h ---- */
         uint32_t nv = ID_VALS[e]; int verdict = 0;             /* 0 accept, 1 refuse 0609 0030, 2 either */
         if (M.mode == M_STOP) return MC_SKIP;
@@ -110,7 +113,7 @@ static int step(int e)
         int nsync = 0, ntp = nc_count_tx(0x181), ntp3 = nc_count_tx(0x481);
         for (int i = 0; i < OBS.ntx; i++) {
             const WFrame *f = &OBS.tx[i];
-            if (f->id == 0x181 || f->id == 0x481 || f->id == 0x581 || (f->id == 0x701 && e == E_RESET)) continue;
+            if (f->id == 0x181 || f->id == 0x481 || f->id == 0x581 || (f->id == 0x701 && (e == E_RESET || e == E_NODESTART))) continue;
             if (f->id == (M.cobid & 0x7FF) && f->dlc == 0) { nsync++; continue; }
             mc_fail("sync-unexpected-frame", "frame %03X (DLC %d) sent on '%s' with 1005h=%08X", f->id, f->dlc, ev_name(e), M.cobid); return MC_OK;
         }
@@ -127,5 +130,5 @@ static int step(int e)
     return MC_OK;
 }
 
-static const mc_harness H = { "C16", "c16", 7, cfg_name, build, ev_name, step, 6, 8 };
+static const mc_harness H = { "C16", "c16", 8, cfg_name, build, ev_name, step, 6, 8 };
 int main(int argc, char **argv) { return mc_main(argc, argv, &H); }
